@@ -3,7 +3,8 @@
 // Enum mode (argv):    cx_pathutils enum <what> <npts> <L> <shard> <nshards>
 //                      emits the same "<request> = <response>" lines for every path of exactly <npts> points over the
 //                      LxL lattice whose enumeration index is congruent to <shard> mod <nshards>;
-//                      <what> is a string of letters: T trim (open+closed), S simplify (eps grid x open/closed), R rdp (eps grid).
+//                      <what> is a string of letters: T trim (open+closed), S simplify (eps grid x open/closed), R rdp (eps grid),
+//                      s simplify with the two-value grid {0.5, 2} x open/closed (quick tier, 5-point paths).
 // Requests (integers decimal, doubles C99 hex floats, <path> = n x y x y ...):
 //   TRIM o <path>            -> <path out> <path TrimCollinear(out,o)>
 //   SIMP eps c <path>        -> <path>
@@ -116,6 +117,10 @@ static int enum_mode(int argc, char** argv) {
         }
       } else if (w == 'S') {
         for (double eps : EPS_GRID) for (int c = 0; c < 2; ++c) {
+          std::ostringstream os; os << "SIMP " << hexd(eps) << ' ' << c << ' ' << pathstr << " = "; do_simp(os, p, eps, c != 0); std::cout << os.str() << '\n';
+        }
+      } else if (w == 's') {
+        for (double eps : {0.5, 2.0}) for (int c = 0; c < 2; ++c) {
           std::ostringstream os; os << "SIMP " << hexd(eps) << ' ' << c << ' ' << pathstr << " = "; do_simp(os, p, eps, c != 0); std::cout << os.str() << '\n';
         }
       } else if (w == 'R') {
